@@ -34,13 +34,21 @@ def check(tier):
     reg = run_harness(pvh, ["registry"])["extra"]
     names = run_harness(pvh, ["c01-names"])["extra"]["names"]
     q = lambda xs: ", ".join('"%s"' % x for x in xs)
-    cfg = ("INIT Init\nNEXT Next\nCONSTANTS\n  RegTags = {%s}\n  RegFilters = {%s}\n  CtxNames = {%s}\n  Budget = %d\nINVARIANTS Emit\n"
+    cfg = ("INIT Init\nNEXT Next\nCONSTANTS\n  RegTags = {%s}\n  RegFilters = {%s}\n  CtxNames = {%s}\n  Budget = %d\n  CrossFamily = \"none\"\nINVARIANTS Emit\n"
            % (q(reg["tags"]), q(reg["filters"]), q(names), 30 if quick else 45))
     lines = []
     res = run_tlc("MC_PongoApi", "gen.cfg", timeout=3000, deadlock=False, simulate=(120 if quick else 4000), depth=200,
                   extra_files={"gen.cfg": cfg}, vector_sink=lambda o: lines.append(json.dumps(o)))
     require_model_ok(res, "grammar simulation")
     rep.add_tlc("MC_PongoApi grammar simulation (seed %d)" % seed(), res)
+    # the systematic cross product: operators x value pairs, filters x values x parameters, constructs x values
+    for fam in ["ops", "filters", "constructs"]:
+        ccfg = ("INIT CrossInit\nNEXT CrossNext\nCONSTANTS\n  RegTags = {%s}\n  RegFilters = {%s}\n  CtxNames = {%s}\n  Budget = 0\n  CrossFamily = \"%s\"\nINVARIANTS CrossEmit\n"
+                % (q(reg["tags"]), q(reg["filters"]), q(names), fam))
+        res = run_tlc("MC_PongoApi", "cross.cfg", timeout=3000, deadlock=False, extra_files={"cross.cfg": ccfg},
+                      vector_sink=lambda o: lines.append(json.dumps(o)))
+        require_model_ok(res, "cross " + fam)
+        rep.add_tlc("MC_PongoApi cross product: " + fam, res)
     # plus every byte string of the lexer's exhaustive configurations
     for cfgname in (["MC_PongoLexer_text_q.cfg", "MC_PongoLexer_code_q.cfg"] if quick else ["MC_PongoLexer_text_t.cfg", "MC_PongoLexer_code_q.cfg", "MC_PongoLexer_mixed_q.cfg"]):
         res = run_tlc("MC_PongoLexer", cfgname, timeout=3000, deadlock=False,
